@@ -10,7 +10,7 @@ import collections
 ID = "C18"
 LEVEL = "exploration"
 CHUNK = 250
-BUDGET = {"quick": {"runs": 6000, "wall": 120}, "thorough": {"runs": 400000, "wall": 3000}}
+BUDGET = {"quick": {"runs": 6000, "wall": 120}, "thorough": {"runs": 400000, "wall": 1200}}
 RULE = ("rule sets (1-3 rules per command; scopes global / ip / specific IPv4 address; n in "
         "{-1,1,2,3,5,10}; intervals s/m/h) x arrival sequences of (dt, address, command) with dt on "
         "the grid {0, eps, I-eps, I, I+eps} (systematic short sequences for even run indices, random "
